@@ -1,7 +1,9 @@
 """C18 - clipping a cell is independent of vertex storage order."""
 import json
 
-from mirsym import engine, kanirun
+from mirsym import engine
+from mirsym import kanirun
+from mirsym.interp import Unsupported
 from . import cliprules as CR
 
 LEVEL = 'other'
@@ -24,14 +26,18 @@ KANI = [
 def check(run):
     funcs, info = engine.load_mir('ibig')
     run.mir_info.append(info)
-    duals = CR.init_duals_from_mir(funcs)
-    cube = [(d, CR.cube_loc(d)) for d in duals]
-    seeds = [run.seed * 100 + k for k in range(1, 4 if run.tier == 'quick' else 12)]
-    CR.check_cell(run, funcs, 'C18', 'initial cube cell', CR.CUBE_PLANES, cube, seeds, max_ties=1 if run.tier == 'quick' else 3, procs=12)
-    tet_planes = [((1, 0, 0), (0, 0, 0)), ((0, 1, 0), (0, 0, 0)), ((0, 0, 1), (0, 0, 0)), ((-1, -1, -1), (1, 0, 0))]
-    tet = [((0, 2, 1), (0, 0, 0)), ((0, 1, 3), (0, 0, 1)), ((1, 2, 3), (1, 0, 0)), ((0, 3, 2), (0, 1, 0))]
-    CR.check_cell(run, funcs, 'C18', 'tetrahedron', tet_planes, tet, seeds + [run.seed * 100 + 50 + k for k in range(4)], loc=(CR.F(1, 5), CR.F(1, 5), CR.F(1, 5)))
-    run.bound('catalogue: initial cube cell (8 vertices, duals from the MIR of ConvexCell::init) and a tetrahedron; symbolic clipping plane; %d seeded storage orders/rotations each' % (len(seeds) + 1))
+    try:
+        duals = CR.init_duals_from_mir(funcs)
+        cube = [(d, CR.cube_loc(d)) for d in duals]
+        seeds = [run.seed * 100 + k for k in range(1, 4 if run.tier == 'quick' else 12)]
+        CR.check_cell(run, funcs, 'C18', 'initial cube cell', CR.CUBE_PLANES, cube, seeds, max_ties=1 if run.tier == 'quick' else 3, procs=12)
+        tet_planes = [((1, 0, 0), (0, 0, 0)), ((0, 1, 0), (0, 0, 0)), ((0, 0, 1), (0, 0, 0)), ((-1, -1, -1), (1, 0, 0))]
+        tet = [((0, 2, 1), (0, 0, 0)), ((0, 1, 3), (0, 0, 1)), ((1, 2, 3), (1, 0, 0)), ((0, 3, 2), (0, 1, 0))]
+        CR.check_cell(run, funcs, 'C18', 'tetrahedron', tet_planes, tet, seeds + [run.seed * 100 + 50 + k for k in range(4)], loc=(CR.F(1, 5), CR.F(1, 5), CR.F(1, 5)))
+        run.bound('catalogue: initial cube cell (8 vertices, duals from the MIR of ConvexCell::init) and a tetrahedron; symbolic clipping plane; %d seeded storage orders/rotations each' % (len(seeds) + 1))
+    except (engine.Inconclusive, Unsupported) as e:
+        # the MIR-level part could not be encoded for this tree: recorded as inconclusive; the Kani part below still runs
+        run.inconclusive.append('MIR-level clip_by_plane obligations not encoded: %s' % str(e)[:300])
     kanirun.run(run, 'C18', KANI, jobs=2)
     run.assume('float leaves (intersect_planes of the new vertices, safety radius) abstracted: equal vertex sets give equal volumes only up to rounding')
     return run.finish(LEVEL, EXPLANATION, trusted=['rustc -Zunpretty=mir', 'z3 5.1.0', 'Kani 0.68 / CBMC 6.11', 'std Vec/slice/iterator models of mirsym'])
